@@ -153,12 +153,30 @@ def opParse (j : Json) : Json :=
   let (w, r) := runParse env filename text (P.parserProg F D)
   Json.mkObj [("events", Json.arr (w.events.map J.event).toArray), ("result", jresult r), ("anon", toJson w.anon)]
 
+/-- `parse_string`: the parser driving a `SimpleCxxVisitor`.  If a callback of the fold
+    raises at index `i`, the run is the one with `faultAt := i`. -/
+def opSimple (j : Json) : Json :=
+  let text := strToStr (getStr j "text")
+  let filename := (getOptStr j "filename").getD "<str>"
+  let env := mkEnv j
+  let F := text.length + 16
+  let D := (j.getObjValAs? Nat "depth").toOption.getD 150
+  let (w, r) := runParse env filename text (P.parserProg F D)
+  match simpleFold w.events with
+  | .ok fs => Json.mkObj [("result", jresult r), ("data", match r with | .ok => J.parsedData fs | _ => Json.null)]
+  | .error (i, _) =>
+    let (_, r2) := runParse { env with faultAt := some i } filename text (P.parserProg F D)
+    Json.mkObj [("result", jresult r2), ("data", Json.null), ("fold_fault", toJson i)]
+
+/-- fold of an event stream given by a parse (for the fold correspondence): the model's own
+    events are folded; the harness compares with the implementation's `SimpleCxxVisitor` -/
 def handle (j : Json) : Json :=
   match getStr j "op" with
   | "lex" => opLex j
   | "re" => opRe j
   | "stream" => opStream j
   | "parse" => opParse j
+  | "simple" => opSimple j
   | "ping" => Json.mkObj [("pong", Json.bool true)]
   | op => Json.mkObj [("error", Json.str s!"unknown op {op}")]
 
